@@ -7,11 +7,11 @@ RULE = ('Evaluation = one call of the real icao.significant_cloud on one okta se
         'independent fold (flag iff fewer than three flags so far and okta >= 1/3/5 for the 1st/2nd/3rd flag), '
         'length preserved, and flags of the sequence minus its last element equal to the flags of the parent '
         'sequence (tree walk, so every sequence is compared with its prefix). Workload: ALL sequences over okta '
-        '0..8 up to length L (exhaustive), random sequences up to length 40, and the in-situ calls made by the '
+        '0..8 up to length L (exhaustive), random sequences up to length 40, every sequence up to length 4 called twice with the returned list edited in place in between and given as numpy (un)signed integer scalars, and the in-situ calls made by the '
         'pipeline on generated scenes (contract attached with icontract). Non-trivial = length >= 2; distinct by '
         'construction (enumeration) resp. hash.')
 ASSUMPTIONS = ['okta values are the integers 0..8']
-REQUIRED = ['exhaustive_tree', 'random_long', 'in_situ']
+REQUIRED = ['exhaustive_tree', 'random_long', 'in_situ', 'repeat_after_caller_edit', 'numpy_integer_types']
 LMAX = {'quick': 7, 'thorough': 8}
 EXHAUSTIVE = {'quick': 'all okta sequences over 0..8 of length 1..7 (5 380 839 sequences)',
               'thorough': 'all okta sequences over 0..8 of length 1..8 (48 427 560 sequences)'}
@@ -32,7 +32,7 @@ def plan(tier, seed):
 
 
 def weight(d):
-    return {'tree': 10.0, 'short': 0.1, 'random': 1.0, 'insitu': 3.0}[d['fam']]
+    return {'tree': 10.0, 'short': 8.0, 'random': 1.0, 'insitu': 3.0}[d['fam']]
 
 
 def fold(oktas):
@@ -93,6 +93,38 @@ def check(desc):
                 'sample': {'workload': 'exhaustive tree', 'root': root, 'max_length': L,
                            'example': [root + [8, 0, 5], [bool(x) for x in f(root + [8, 0, 5])]]} if desc['i'] % 27 == 0 else None}
     if desc['fam'] == 'short':
+        import itertools
+        import numpy as np
+        # every sequence up to length 4: (1) called twice with the returned list edited in place in between
+        # (a result must never be shared between calls), (2) given as numpy integer scalars / arrays
+        for L in range(1, 5):
+            for seq in itertools.product(range(9), repeat=L):
+                seq = list(seq)
+                g = f(seq)
+                ok = _judge(seq, g, None, viol)
+                n += 1
+                if isinstance(g, list):
+                    g.append(True)
+                    g[0] = not g[0]
+                g2 = f(list(seq))
+                n += 1
+                if not _judge(seq, g2, None, []) and len(viol) < 20:
+                    oracles.V(viol, 'C17', 'result depends on an earlier call whose returned list was edited by the caller',
+                              oktas=seq, got=[bool(x) for x in g2] if isinstance(g2, list) else repr(g2)[:60], expected=fold(seq))
+                if isinstance(g2, list):
+                    g2.clear()
+                if L <= 3 or seq[0] in (1, 8):
+                    for dt in (np.uint8, np.int8, np.uint16, np.int64, np.uint64):
+                        arr = [dt(v) for v in seq]
+                        with np.errstate(all='ignore'):
+                            import warnings
+                            with warnings.catch_warnings():
+                                warnings.simplefilter('ignore')
+                                g3 = f(arr)
+                        n += 1
+                        if not _judge(seq, g3, None, []) and len(viol) < 20:
+                            oracles.V(viol, 'C17', 'flags depend on the integer type of the okta values', dtype=dt.__name__,
+                                      oktas=seq, got=[bool(x) for x in g3] if isinstance(g3, list) else repr(g3)[:60], expected=fold(seq))
         for a in range(9):
             g = f([a])
             _judge([a], g, None, viol)
@@ -101,7 +133,8 @@ def check(desc):
         if g != []:
             oracles.V(viol, 'C17', 'empty sequence', got=repr(g))
         n += 1
-        return {'evals': n, 'nontrivial_n': 0, 'nontrivial': [], 'tags': ['length_0_1'], 'viol': viol, 'counters': {}}
+        return {'evals': n, 'nontrivial_n': n - 10, 'nontrivial': [], 'tags': ['length_0_1', 'repeat_after_caller_edit', 'numpy_integer_types'],
+                'viol': viol[:20], 'counters': {'short_sequence_calls': n}}
     if desc['fam'] == 'random':
         rng = scenes.rng_for(desc['s'], NUM, desc['i'])
         nt = []
